@@ -271,6 +271,17 @@ class Interp {
     return s + "]";
   }
 
+  // C15 severity rule holds whatever the model says: also checked when the case runs unchecked
+  void check_severity_only() {
+    for (auto& r : real::g_log.reports) {
+      bool in_call = r.activity == ACT_CALL;
+      if (in_call != r.fatal) {
+        uint32_t mask = cat_mask(CAT_SEVERITY);
+        res.mismatches.push_back(Mismatch{CAT_SEVERITY, mask, cur, std::string("severity ") + (r.fatal ? "fatal" : "non-fatal") + " from " + (in_call ? "a call" : "a destructor/other") + " (unchecked part of the case): " + r.msg});
+      }
+    }
+  }
+
   void compare_reports(const Op& o, const Expect& x) {
     int cat = CAT_EOL_REPORTS;
     if (o.kind == O_CALL) cat = CAT_CALL_REPORTS;
@@ -427,7 +438,7 @@ class Interp {
       case O_SWAP_REPORTER: swap_good = real::swap_reporter(o.at(0) != 0); res.swaps++; break;
     }
     real::drain_stream_tracers();
-    if (x.degrade) { res.degraded = true; stop = true; return; }
+    if (x.degrade) { res.degraded = true; stop = true; check_severity_only(); return; }
 
     // --- compare ---
     if (o.kind == O_CREATE && cres != x.create_res)
@@ -676,6 +687,7 @@ class Interp {
       case O_POP_TRACER: real::pop_tracer(); break;
       case O_SWAP_REPORTER: real::swap_reporter(o.at(0) != 0); break;
     }
+    check_severity_only();
   }
 };
 
